@@ -64,6 +64,8 @@ PATH_FINDING = {
     "decl-typedef-ternary": "C04-typedef-ternary-init-unchecked", "static-assign": "C04-static-unsigned-flag-lost",
     "elem1-global": "C04-global-array-unsigned-flag-lost", "arrlit-assign1": "C04-array-literal-assign-unchecked",
     "arrlit-assignN": "C04-array-literal-assign-unchecked", "arr-copy": "C04-array-copy-unchecked",
+    "member": "C04-struct-member-unchecked", "member-nested": "C04-struct-member-unchecked", "member-generic": "C04-generic-struct-member",
+    "deref": "C04-pointer-store-unchecked", "reference": "C04-reference-store-unchecked",
 }
 ONE_D = ("elem1", "elem1-compound", "lit1", "global-arr", "incdec-elem1")
 
@@ -386,14 +388,14 @@ def run(rep):
                       "proof obligation %s no longer checks (generated range table / test / clamp changed?)" % failed,
                       no_failing_input=not concrete)
     seen = collections.Counter()
-    written = 0
+    wrote = collections.Counter()
     for name, payload, text, noinp in violations:
         key = (name, payload.get("cell", {}).get("path") if isinstance(payload.get("cell"), dict) else None)
         seen[key] += 1
-        if seen[key] > 2 or written >= 12:
-            continue                       # a few replays per path are enough; the total is in the evidence
+        if seen[key] > 2 or wrote[name] >= (12 if name == "matrix" else 4):
+            continue                       # a few replays per path are enough; the totals are in the evidence
         rep.violation(name, payload, text, noinp)
-        written += 1
+        wrote[name] += 1
 
     # (6) thorough tier: the independent checker over the .vo closure of the property file
     if not quick and not proof_broken:
